@@ -19,13 +19,18 @@ from fim.slivers.interface_info import InterfaceType
 from fim.slivers.network_link import LinkType
 from fim.slivers.capacities_labels import Labels
 
+from fim.graph.networkx_property_graph_disjoint import NetworkXGraphImporterDisjoint
+
 LEVEL = 'other'
 
 
-def build(h, variant, site1, site2):
-    """two VMs with NICs, optionally a bridge between them; variant picks the shape"""
+def build(h, variant, site1, site2, backend='shared store'):
+    """two VMs with NICs, optionally a bridge between them; variant picks the shape; on either in-memory back end"""
     topo.fresh_world(h)
-    t = h.call(ExperimentTopology)
+    if backend == 'shared store':
+        t = h.call(ExperimentTopology)
+    else:
+        t = h.call(ExperimentTopology, importer=h.call(NetworkXGraphImporterDisjoint))
     n1 = h.call(h.getattr(t, 'add_node'), name='n1', site=site1)
     c1 = h.call(h.getattr(n1, 'add_component'), name='nic1', model_type=CMT('SmartNIC_ConnectX_6'))
     n2 = h.call(h.getattr(t, 'add_node'), name='n2', site=site2)
@@ -70,10 +75,11 @@ def make(opname, run, expected, variants=('plain', 'bridge', 'gpu+bridge', 'sub-
         no_crosscheck = False
 
         def inputs(self, g):
-            return [g.pick(list(variants), 'topology shape'), g.atom('site1'), g.atom('site2')], {}
+            return [g.pick(list(variants), 'topology shape'), g.atom('site1'), g.atom('site2'),
+                    g.pick(['shared store', 'one graph per store'], 'in-memory back end')], {}
 
-        def body(self, h, variant, site1, site2):
-            t, n1, n2, c1, c2, ns = build(h, variant, site1, site2)
+        def body(self, h, variant, site1, site2, backend):
+            t, n1, n2, c1, c2, ns = build(h, variant, site1, site2, backend)
             S0 = take(h, t)
             run(h, t, n1, n2, c1, c2, ns)
             S1 = take(h, t)
@@ -210,11 +216,15 @@ class Unpeer(Contract):
     cost = 30
 
     def inputs(self, g):
-        return [g.pick(['bare services', 'first service also has a node interface'], 'shape'), g.atom('site1')], {}
+        return [g.pick(['bare services', 'first service also has a node interface'], 'shape'), g.atom('site1'),
+                g.pick(['shared store', 'one graph per store'], 'in-memory back end')], {}
 
-    def body(self, h, shape, site1):
+    def body(self, h, shape, site1, backend):
         topo.fresh_world(h)
-        t = h.call(ExperimentTopology)
+        if backend == 'shared store':
+            t = h.call(ExperimentTopology)
+        else:
+            t = h.call(ExperimentTopology, importer=h.call(NetworkXGraphImporterDisjoint))
         ifs = []
         if shape != 'bare services':
             n1 = h.call(h.getattr(t, 'add_node'), name='n1', site=site1)
